@@ -51,6 +51,7 @@ def libCall (id : String) (args : List Val) : R Val :=
   | "IsPos", [.int .int n] => .ok (.bool (n > 0))
   | "Fail", _ => .error .call
   | "Fast", xs => .ok (.int .int xs.length)
+  | "List", xs => .ok (.arr .iface xs)
   | "Sum", xs => match sumInts xs with
     | some s => .ok (.int .int (wrap .int s))
     | none => .error .type_
